@@ -59,6 +59,35 @@ impl Prop for C09 {
                 }
             }
         }
+        if tier == Tier::Thorough {
+            // a fine magnitude grid: every multiple of 1/8 from -500 to 1000 (absolute zero of each
+            // scale, the crossing point -40, freezing and boiling points all lie on it or between two
+            // neighbours) over the nine ordered pairs of the three scales
+            for k in -4000i64..=8000 {
+                let (neg, a) = (k < 0, k.abs() * 125);
+                let x = format!("{}{}.{:03}", if neg { "-" } else { "" }, a / 1000, a % 1000);
+                for a in ["K", "°C", "°F"] {
+                    for b in ["K", "°C", "°F"] {
+                        sink(Case::with("direct-grid", format!("{x} {a} to {b}"), serde_json::json!({"x": x, "chain": [a, b]})));
+                    }
+                }
+            }
+            // chains of five casts over the three scales
+            let s3 = ["K", "°C", "°F"];
+            for x in ["-40", "0", "98.6"] {
+                for a in s3 {
+                    for b in s3 {
+                        for c in s3 {
+                            for d in s3 {
+                                for e in s3 {
+                                    sink(Case::with("chain5", format!("{x} {a} to {b} to {c} to {d} to {e}"), serde_json::json!({"x": x, "chain": [a, b, c, d, e]})));
+                                }
+                            }
+                        }
+                    }
+                }
+            }
+        }
         let sc: Vec<&str> = match tier {
             Tier::Quick => vec!["K", "°C", "°F"],
             Tier::Thorough => SCALES.iter().map(|s| s.0).collect(),
@@ -79,11 +108,12 @@ impl Prop for C09 {
         // the prefix scales the number on its own scale, the zero point is added on the unprefixed scale)
         let sym_scales = [("K", 'K'), ("°C", 'C'), ("°F", 'F')];
         let long_scales = [("kelvin", 'K'), ("celsius", 'C'), ("fahrenheit", 'F')];
-        let sym_pfx = [("", 0i64), ("m", -3), ("k", 3), ("n", -9), ("G", 9)];
+        let all_pfx: Vec<(&str, i64)> = std::iter::once(("", 0i64)).chain(crate::tables::PREFIXES.iter().map(|p| (p.0, p.2 as i64))).collect();
+        let sym_pfx: Vec<(&str, i64)> = if tier == Tier::Thorough { all_pfx } else { vec![("", 0i64), ("m", -3), ("k", 3), ("n", -9), ("G", 9)] };
         let long_pfx = [("", 0i64), ("milli", -3), ("kilo", 3)];
         let mut words: Vec<(String, char, i64)> = Vec::new();
         for (s, k) in sym_scales {
-            for (p, e) in sym_pfx {
+            for (p, e) in sym_pfx.iter().copied() {
                 words.push((format!("{p}{s}"), k, e));
             }
         }
@@ -263,7 +293,7 @@ impl Prop for C09 {
                     Res::Err { msg, .. } => fw::fail(format!("{sig}refused"), format!("{q}: refused: {msg}")),
                 }
             }
-            "direct" | "chain3" | "chain4" => {
+            "direct" | "direct-grid" | "chain3" | "chain4" | "chain5" => {
                 let chain: Vec<&str> = case.data["chain"].as_array().unwrap().iter().map(|v| v.as_str().unwrap()).collect();
                 let (from, to) = (kind(chain[0]), kind(chain[chain.len() - 1]));
                 let want = from_k(&to_k(&x, from), to);
@@ -307,6 +337,6 @@ impl Prop for C09 {
         }
     }
     fn bounds(&self, tier: Tier) -> serde_json::Value {
-        serde_json::json!({"magnitudes": 12, "chain_length_max": 4, "chain_scales": tier.pick(3, 6), "powers": "-3..3"})
+        serde_json::json!({"magnitudes": 12, "chain_length_max": tier.pick(4, 5), "magnitude_grid": tier.pick("12 magnitudes", "12 magnitudes + every multiple of 1/8 in -500..1000"), "prefix_symbols": tier.pick(4, 20), "chain_scales": tier.pick(3, 6), "powers": "-3..3"})
     }
 }
